@@ -150,6 +150,9 @@ def digest (w : World) : String := Id.run do
   out := out ++ " | R"
   for p in w.heap do out := out ++ s!" r{p.1}:{p.2.refs}"
   out := out ++ s!" freed={w.freed} t={w.now}"
+  -- the model's own bookkeeping must be consistent; if not, the line cannot equal the implementation's
+  if !refInvOk w then out := out ++ " MODEL-REFCOUNT-INVARIANT-BROKEN"
+  if !noDangling w then out := out ++ " MODEL-DANGLING-REFERENCE"
   return out
 
 def takeEvents (w : World) : World × String :=
@@ -229,6 +232,7 @@ def worldOp1 (st : Option World) (op : String) (args tr : List String) : Option 
     | some si, some stt, some lost =>
       let (w, s) := tail (updSrv w si fun s => { s with state := stt, lost := lost }); (some w, "ok" ++ s)
     | _, _, _ => (some w, "bad-op")
+  | "idle", [], some w => let (w, s) := tail w; (some w, "idle" ++ s)
   | "pop", [k], some w =>
     match k.toNat? with
     | some k =>
